@@ -340,6 +340,12 @@ func runC09(l *core.Ledger) {
 	// every reply on that node unread for as long as the timer runs (up to the back-off cap)
 	l.Rule("C09-W11", "the reader never sleeps through a back-off while another goroutine has restored the stream (C10-N4 re-run)")
 	l.With(map[string]string{"C10-N4": "C09-W11"}, func() { c10N4(l, r) })
+	l.Rule("C09-W12", "every configuration lists its nodes in one global order (C14-G1 re-run): the call types hand a request to the nodes one after the other and a node's reader can wait for a streaming call that is still handing out requests (C09-W3 residual) - with one order these waits form a chain that resolves, with two configurations in opposite orders they form a cycle that wedges both nodes")
+	l.With(map[string]string{"C14-G1": "C09-W12"}, func() {
+		for _, c := range findCtors(l, r) {
+			c14Ctor(l, r, c)
+		}
+	})
 	c09W4(l, r)
 	c09W6(l, r)
 	c09W7(l, r, roots)
